@@ -271,11 +271,12 @@ func main() {
 	r.Finish(ev.Coverage{
 		Evaluations:        e.evals,
 		DistinctNontrivial: int64(len(e.seen)) + r.Counters["hasher_partitions_verified(>=2 parts)"],
-		Rule: fmt.Sprintf("payloads: every byte string over {00,'a',ff} of length <= %d (P1) and structured payloads (6 patterns x sizes 0..40, 255..260, 4095..4097, 32766..32770, 65534..65538, 100000) (P2) x "+
+		Rule: fmt.Sprintf("payloads: every byte string over {00,'a',ff} of length <= %d (P1) and structured payloads (6 patterns x sizes 0..40, 255..260, 4095..4097, 32766..32770, 65534..65538, 100000, plus a period-251 cycle and a word salad from size 255 up) (P2) x "+
 			"compress/flate levels {-2,0,1,2,5,9} as raw deflate / zlib / gzip, with Flush at every single position and after every byte, preset dictionary (given to the decoder as a leading stored block), "+
 			"gzip header fields and two-member files, compress/lzw LSB widths 2..8, bzip2 -1/-9, xz presets x checks, xz --format=lzma; image/png: 17 image kinds x 5 patterns x sizes 1..9 x 1..5 and 33x3 x 4 compression levels, "+
 			"decoded to BGRA_NONPREMUL, RGBA_NONPREMUL and (16-bit sources) BGRA_NONPREMUL_4X16LE; image/gif: palette sizes x frames x local palettes x transparency x sub-rectangles x disposal; image/jpeg (tolerance) and hand-written BMP; "+
 			"hashers crc32/crc64/adler32/sha256: every P1 payload (length <= %s) and 5 patterns at every length <= %s under every partition into update calls (length <= 10) / every 2- and 3-part partition (longer; quick: lengths 49..200 one-shot and 2-part only), update! / update_uNN! / alternating entry points, plus the structured sizes up to 100000 one-shot at 16 alignments and 2-part splits at structural offsets. "+
+			"every stream whose payload exceeds 4 KiB is decoded a second time as a stream, every call getting a fresh destination buffer of 256, 300, 1000, 1024, 4096, 4097, 32768 or 65536 bytes (each size smaller than the payload). "+
 			"evaluations = decodes + hasher partitions run on the generated C; distinct non-trivial = distinct (decoder, encoded stream) with a non-empty payload, distinct image files, and (hasher, distinct payload of >= 2 bytes, partition into >= 2 update calls x entry-point mode) combinations (distinct by construction, counted on the plain build only), each verified equal to the reference",
 			p1, map[bool]string{false: "6", true: "8"}[r.Thorough()], map[bool]string{false: "48", true: "200"}[r.Thorough()]),
 		Exhaustive: true,
